@@ -79,9 +79,12 @@ SPEC = {
                   "(submission batches local/remote, runReorg with any reset/dirty-set/scheduler order, re-pricing, eviction, "
                   "removal, Pending()) with arbitrary arguments: the lookup is at all times the disjoint union of the pending "
                   "and queued views, every transaction filed under its sender, one nonce per account names at most one "
-                  "pooled transaction, none is both pending and queued. The clause 'pending is gap-free from the account "
-                  "nonce' is REFUTED for the code as it is (theorem + replayable witness, listed finding with a 15-line "
-                  "repair that the model also carries). The model is a hand-written mirror of tx_pool.go/tx_list.go/"
+                  "pooled transaction, none is both pending and queued; every pooled transaction is not stale, affordable and "
+                  "within the gas limit of the current head; Pending() returns exactly the pending view in nonce order. "
+                  "The clause 'pending is gap-free from the account nonce' is REFUTED for the code as it is (theorem + replayable "
+                  "witness, listed finding with a 15-line repair that the model also carries); gap-freeness, queued-above-pending "
+                  "and soundness of the pool nonce are proved for every history outside the finding (ghost flag of the one code "
+                  "location) and unconditionally for the repaired code. The model is a hand-written mirror of tx_pool.go/tx_list.go/"
                   "tx_noncer.go, compared with the real pool after every critical section of thousands of random histories "
                   "inside Coq; the lock discipline is checked on a method table regenerated from the source.",
     "level_note": "Trusted: Coq kernel + vm_compute; fidelity of the hand model rests on the differential check "
@@ -92,15 +95,18 @@ SPEC = {
     "hooks": ["core/zz_verif_c20.go"],
     "translators": [["locks", "-out", "{gen}/C20Locks.v"]],
     "coq_targets": ["C20/Model.vo", "C20/Spec.vo", "C20/Lemmas.vo", "C20/ProofsWF.vo", "C20/ProofsWF2.vo",
-                    "C20/ProofsWF3.vo", "C20/Proofs.vo", "gen/C20Locks.vo", "C20/Bridge.vo", "C20/Properties.vo"],
+                    "C20/ProofsWF3.vo", "C20/ProofsCaps.vo", "C20/ProofsNonce.vo", "C20/ProofsNonce2.vo",
+                    "C20/ProofsNonce3.vo", "C20/ProofsNonce4.vo", "C20/ProofsNonce5.vo", "C20/Proofs.vo",
+                    "gen/C20Locks.vo", "C20/Bridge.vo", "C20/Properties.vo"],
     "coq_dirs": ["C20"],
     "properties_v": "C20/Properties.v",
     "obligations": [
-        "C20_views_partition", "C20_never_pending_and_queued", "C20_pending_gapfree_refuted",
-        "C20_lock_discipline", "C20_evict_branch_as_modelled",
-        "C20_nonvacuous_partition", "C20_nonvacuous_repair",
+        "C20_views_partition", "C20_never_pending_and_queued", "C20_pooled_valid",
+        "C20_pending_gapfree_refuted", "C20_pending_gapfree_holds_outside", "C20_state_clauses_after_repair",
+        "C20_pending_api_exact", "C20_lock_discipline", "C20_evict_branch_as_modelled",
+        "C20_nonvacuous_partition", "C20_nonvacuous_repair", "C20_nonvacuous_holds_outside",
     ],
-    "cases": {"quick": 300, "thorough": 6000},
+    "cases": {"quick": 300, "thorough": 4500},
     "shard": 300,
     "search_factor": 3,
     "gen_args": [],
@@ -131,6 +137,8 @@ SPEC = {
                  "Pending", "eviction branch of loop", "txList.*", "txSortedMap.*", "txNoncer.*", "txLookup.*",
                  "txPricedList.Underpriced/Discard/Cap (by meaning)"],
     "partial": [
+        "limits (GlobalSlots/AccountSlots/GlobalQueue/AccountQueue after a reorg run): no Coq theorem, only the harness oracle and the model comparison",
+        "the model never reaching a Go panic (empty list in truncatePending / the tail of runReorg): not proved; no panic in any harness run",
         "data races: Go memory model is outside Coq; lock inventory (C20_lock_discipline) + -race run of a concurrent workload (thorough tier) are supporting evidence",
     ],
 }
